@@ -82,6 +82,11 @@ CANARIES = [
      "                return \"'{}'\".format(str(value).replace(\"'\", \"\\\\'\"))\n\n            return super(LiteralCompiler, self).render_literal_value(value, type_)\n\n    return str(LiteralCompiler(dialect, statement, compile_kwargs={'literal_binds': True}))\n\n\ndef render_ddl_query", 'C07.lit.dml.postgresql.squote'),
     ('c07-literal-lower', 'C07', 'mindsdb_sql/render/sqlalchemy_render.py', "            col = sa.literal(t.value)", "            col = sa.literal(t.value if not isinstance(t.value, str) else t.value.strip())", 'C07.route.constant'),
     ('c07-paramstyle', 'C07', 'mindsdb_sql/render/sqlalchemy_render.py', 'self.dialect = dialect(paramstyle="named")', 'self.dialect = dialect()', 'C07.route.paramstyle'),
+    ('c01-drop-parens-wrapper', 'C01', 'mindsdb_sql/parser/ast/base.py', "        if self.parentheses:\n            return f'({some_str})'", "        if self.parentheses and not some_str.startswith('('):\n            return f'({some_str})'", 'C01.wrap.par1'),
+    ('c01-alias-with-alias', 'C01', 'mindsdb_sql/parser/ast/base.py', "return f'{some_str} AS {self.alias.to_string(alias=False)}'", "return f'{some_str} AS {self.alias.to_string()}'", 'C01.wrap.'),
+    ('c01-unreserve-word', 'C01', 'mindsdb_sql/parser/ast/select/identifier.py', "    'ORDER', 'BY', 'GROUP', 'PARTITION'\n}", "    'ORDER', 'BY', 'GROUP', 'PARTITION'\n}\nNOT_RESERVED = {'WINDOW', 'HAVING'}",  None),
+    ('c01-skip-reserved-with-digits', 'C01', 'mindsdb_sql/parser/ast/select/identifier.py', "        if '_' not in word:", "        if '_' not in word and not word.startswith('H'):", 'C01.reserved.'),
+    ('c01-between-lowercase-and', 'C01', 'mindsdb_sql/parser/ast/select/operation.py', "return f'{arg_strs[0]} BETWEEN {arg_strs[1]} AND {arg_strs[2]}'", "return f'{arg_strs[0]} BETWEEN {arg_strs[1]}, {arg_strs[2]}'", 'C01.'),
 ]
 
 
